@@ -155,7 +155,7 @@ USED_CHAR_AXIOMS = [False]
 def slots(T):
     "list of sorts a value of type T flattens to"
     k = T[0]
-    if k in ('int', 'char', 'echar', 'ref', 'list', 'any', 'rec', 'enum', 'pred', 'fn'):
+    if k in ('int', 'char', 'echar', 'ref', 'list', 'any', 'rec', 'enum', 'pred', 'fn', 'map'):
         return [IntS]
     if k == 'bool':
         return [BoolS]
@@ -197,6 +197,8 @@ def conforms(v, T):
         return all(conforms(a, T) for _, a in v.alts)
     if k == 'any':
         return True
+    if k == 'map':
+        return isinstance(v, (VMap, VAny)) or (isinstance(v, VConst) and v.py == {})
     if k == 'int':
         return isinstance(v, (VInt, VBool))
     if k == 'bool':
